@@ -1818,7 +1818,7 @@ func poolRunCloseScenario(t *testing.T, cfg poolCloseCfg, rep *vreport, rng *vrn
 	var conns []*poolEP
 	var servers []*poolPeer
 	nbytes := 4 << 20 // far more than can be moved before the close
-	if cfg.Point == "idle" {
+	if cfg.Point == "idle" || cfg.Point == "backlog-overflow" {
 		nbytes = 2000
 	}
 	mkClient := func(i int) *poolPeer {
@@ -1844,6 +1844,15 @@ func poolRunCloseScenario(t *testing.T, cfg poolCloseCfg, rep *vreport, rng *vrn
 			p.s.Write(p.send[:1500])
 		}
 		poolWaitFor(3*time.Second, func() bool { return len(l.chAccepts) == cfg.Clients })
+	case "backlog-overflow":
+		// more new peers than the accept backlog holds, nobody accepts: whatever the listener does with
+		// the peers it cannot queue, it keeps nothing of them that Close could not release
+		for i := 0; i < cfg.Clients; i++ {
+			p := mkClient(i)
+			p.s.Write(p.send[:600])
+		}
+		poolWaitFor(3*time.Second, func() bool { return len(l.chAccepts) == cap(l.chAccepts) })
+		time.Sleep(50 * time.Millisecond)
 	case "dispatch-after-close":
 		// the listener (socket not owned) is closed first; then a new peer shows up
 		l.Close()
@@ -2318,6 +2327,7 @@ func TestVerifC15Close(t *testing.T) {
 	all := []string{"client", "listener", "transport"}
 	poolRunCloseScenario(t, poolCloseCfg{Name: "backlog/own=true", Point: "backlog", Order: all, Own: true, Clients: 3, Cipher: "none"}, rep, rng, pump, grace)
 	poolRunCloseScenario(t, poolCloseCfg{Name: "backlog/own=false", Point: "backlog", Order: []string{"listener", "client", "transport"}, Own: false, Clients: 2, Cipher: "aes"}, rep, rng, pump, grace)
+	poolRunCloseScenario(t, poolCloseCfg{Name: "backlog-overflow/own=true", Point: "backlog-overflow", Order: all, Own: true, Clients: acceptBacklog + 8, Cipher: "none"}, rep, rng, pump, grace)
 	poolRunCloseScenario(t, poolCloseCfg{Name: "dispatch-after-close/own=false", Point: "dispatch-after-close", Order: []string{"client", "transport"}, Own: false, Clients: 2, Cipher: "none"}, rep, rng, pump, grace)
 
 	// Listener.Close completing inside the monitor's dispatch of a new peer (a select between the die
